@@ -159,7 +159,7 @@ Section ServerProof.
   Lemma pm_counter_eui st dev f n st1 dev1 : pm_counter st dev f n = Some (st1, dev1) -> d_eui dev1 = d_eui dev.
   Proof.
     unfold pm_counter. destruct (d_fup dev <=? fcnt f).
-    - destruct (l_advance_fup _ _ _ _) as [x [[]|]]; try discriminate.
+    - destruct (l_advance_fup _ _ _ _ _) as [x [[]|]]; try discriminate.
       + destruct (d_relaxed dev); [|discriminate]. intros [= _ <-]. reflexivity.
       + intros [= _ <-]. reflexivity.
     - intros [= _ <-]. reflexivity.
